@@ -932,8 +932,98 @@ def _mem_worker(arg):
     return stats, fails
 
 
+# ---------------------------------------------------------------------------------------------
+# sign-chain probes: the result of an integer instruction consumed by a SIGN-SENSITIVE instruction in the same function
+# (a target that keeps a result such as INT_MIN in a non-canonical form - say +2^31 - returns the right bit pattern from
+# the single-instruction probes, and goes wrong only when the value is used again)
+
+SIGN_PRODUCERS = ("add", "sub", "mul", "shl", "xor", "or", "rotl", "shr_u")
+SIGN_CONSUMERS = ("lt_s0", "shr_s1", "div_s2", "ext", "store8", "global")
+
+
+def sign_desc():
+    """-> (desc, [(export, type, producer, consumer)]): one function per (type, producer, consumer): (T, T) -> i32 | i64"""
+    desc = {"types": [], "imports": [], "funcs": [], "table": None, "mem": {"min": 1, "max": 1}, "globals": [], "exports": [],
+            "start": None, "elems": [], "datas": []}  # fmt: skip
+    desc["globals"] = [{"vt": "i32", "mut": True, "init": ["i32.const", [0], []]}, {"vt": "i64", "mut": True, "init": ["i64.const", [0], []]}]
+    items = []
+    for t in ("i32", "i64"):
+        for prod in SIGN_PRODUCERS:
+            for cons in SIGN_CONSUMERS:
+                if cons == "ext" and t != "i32":
+                    continue
+                C = ["%s.%s" % (t, prod), [], [["local.get", [0], []], ["local.get", [1], []]]]
+                k = lambda v: ["%s.const" % t, [v], []]  # noqa: E731
+                out = t
+                if cons == "lt_s0":
+                    body, out = [["%s.lt_s" % t, [], [C, k(0)]]], "i32"
+                elif cons == "shr_s1":
+                    body = [["%s.shr_s" % t, [], [C, k(1)]]]
+                elif cons == "div_s2":
+                    body = [["%s.div_s" % t, [], [C, k(2)]]]
+                elif cons == "ext":
+                    body, out = [["i64.extend_i32_s", [], [C]]], "i64"
+                elif cons == "store8":  # through memory: stored and re-read with sign extension
+                    st_op = "%s.store" % t
+                    body = [[st_op, [R.natural_align(st_op), 0], [["i32.const", [16], []], C]],
+                            ["%s.load8_s" % t, [0, 3 if t == "i32" else 7], [["i32.const", [16], []]]]]
+                else:  # through a global
+                    gi = 0 if t == "i32" else 1
+                    body = [["global.set", [gi], [C]], ["%s.shr_s" % t, [], [["global.get", [gi], []], k(31 if t == "i32" else 63)]]]
+                sig = [[t, t], [out]]
+                if sig not in desc["types"]:
+                    desc["types"].append(sig)
+                name = "s%d" % len(items)
+                desc["funcs"].append({"type": desc["types"].index(sig), "locals": [], "body": body})
+                desc["exports"].append({"name": name, "kind": "func", "idx": len(items)})
+                items.append((name, t, prod, cons))
+    return desc, items
+
+
+def _sign_worker(arg):
+    target, open_ids = arg
+    preload()
+    stats = Stats()
+    fails = []
+    desc, items = sign_desc()
+    calls = [[name, [[t, a], [t, b]]] for name, t, prod, cons in items for a in COMP_POOL[t] for b in COMP_POOL[t]
+             if not (prod in ("shl", "rotl", "shr_u") and not 0 <= b < 64)]
+    case = {"desc": desc, "calls": calls, "target": target}
+    try:
+        msg = check_case(case)
+    except Discard as d:
+        stats.discard(d.reason)
+        msg = None
+    stats.bulk(len(calls), len(calls), {"sign-chain:" + target: len(calls)})
+    if msg is not None:
+        # narrow the report to one call (each attempt needs its own child processes)
+        single, smsg = case, msg
+        for c in calls:
+            one = dict(case, calls=[c])
+            try:
+                m = check_case(one)
+            except Discard:
+                continue
+            if m is not None:
+                single, smsg = one, m
+                break
+        kid = classify(single, smsg)
+        if kid and kid in open_ids:
+            stats.known[kid] += 1
+        else:
+            fails.append((single, smsg))
+    if not stats.samples:
+        stats.sample({"sign_chain": target, "functions": len(items), "calls": len(calls)})
+    if _NODE[0] is not None:
+        _NODE[0].close()
+        _NODE[0] = None
+    return stats, fails
+
+
 def _job(arg):
     kind, payload = arg
+    if kind == "sign":
+        return _sign_worker(payload)
     if kind == "probe":
         return _probe_worker(payload)
     if kind == "mem":
@@ -954,6 +1044,7 @@ def run(ctx):
     # one job list, longest jobs first, so that 16 workers stay busy
     jobs = [("program", (subseed(ctx.seed, PID, w), n, TARGETS[w % 2], open_ids, sizes)) for w in range(nprog)]
     jobs += [("mem", (t, ctx.quick, open_ids)) for t in TARGETS]
+    jobs += [("sign", (t, open_ids)) for t in TARGETS]
     # unary instructions and conversions cost one call per operand: they get the full pool in the quick tier too
     rest = {t: [v for v in FULL_POOL[t] if v not in QUICK_POOL[t]] for t in FULL_POOL}
     pj = [("probe", (ops, target, tier, open_ids, rest if ctx.quick and len(R.SIG[ops[0]][0]) == 1 else None))
